@@ -151,6 +151,109 @@ def run(chk, tier, seed):
                              [(chr(d), bytes(n)) for d, n in imgs[e["disc"]][1]][:8]),
                           dict(event=e, names=[(d, list(n)) for d, n in imgs[e["disc"]][1]]))
         chk.extra["discs"] = len(imgs)
+        extract_runs(chk, dfs, cases, scratch, quick, rnd)
+
+
+def extract_runs(chk, dfs, cases, scratch, quick, rnd):
+    """Extract.tla: whole runs over catalogues (one fragment: Acorn and an Opus volume; two: Watford) whose entries are
+    drawn from HostFs.tla's name classes, at every position TLC enumerates."""
+    import posixpath
+    r = common.tlc("Extract", "Extract.cfg")
+    chk.add_tlc("Extract.cfg", r)
+    if r.violated:
+        chk.violation("model:" + r.violated, "Extract.tla: the extraction loop violates %s\n%s" % (r.violated, "\n".join(r.cex[:30])), dict(spec="Extract.tla"))
+    cats = sorted({json.dumps(c["cat"]): c["cat"] for c in r.cases}.values(), key=json.dumps)
+    def base(c):
+        eff = bytes(c["name"]).split(b" ")[0]
+        return (eff if c["dirc"] == 36 else bytes([c["dirc"], 46]) + eff)
+    outs, nils = {}, {}
+    for c in cases:
+        b = base(c)
+        if c["escapes"]:
+            land = posixpath.normpath("r/d/" + b.decode("latin1"))
+            outs.setdefault(land, (c["dirc"], tuple(c["name"])))
+        elif b"/" in b and 1 not in b:
+            nils.setdefault(b, (c["dirc"], tuple(c["name"])))
+    outs = sorted(outs.items())
+    nils = sorted(nils.items())
+    rnd.shuffle(outs)
+    rnd.shuffle(nils)
+    if quick:
+        cats = [c for c in cats if any(x == "out" for fr in c for x in fr)]
+    jobs = []
+    for ci, cat in enumerate(cats):
+        for variant in (["DFS", "OPUS"] if len(cat) == 1 else ["WDFS"]):
+            if variant == "OPUS" and (ci % 3 or not cat[0]):
+                continue
+            jobs.append((ci, cat, variant))
+
+    def do(job):
+        ci, cat, variant = job
+        ents, plan = [], []
+        n_in = n_out = n_nil = 0
+        for fi, fr in enumerate(cat):
+            for ei, cls in enumerate(fr):
+                if cls == "in":
+                    dirc, nm, land = 36, tuple(b"g%d" % n_in), "r/d/g%d" % n_in
+                    n_in += 1
+                elif cls == "out":
+                    land, (dirc, nm) = outs[(ci * 7 + n_out) % len(outs)]
+                    n_out += 1
+                else:
+                    b, (dirc, nm) = nils[(ci * 5 + n_nil) % len(nils)]
+                    land = None
+                    n_nil += 1
+                ents.append(mkdisc.entry(bytes(nm), dirc, False, 0, 0, 5, 60 - len(ents)))
+                plan.append((fi + 1, ei + 1, cls, land))
+        lands = [p[3] for p in plan if p[3]]
+        if len(set(lands)) != len(lands):
+            return None
+        tag = "e%d%s" % (ci, variant)
+        if variant == "WDFS":
+            d = discs.build("WDFS", ents, scratch, tag, nsectors=400, salt=9, title=b"EXTRACT", split=len(cat[0]))
+        elif variant == "OPUS":
+            d = discs.build("OPUS", ents, scratch, tag, salt=9, title=b"EXTRACT")
+        else:
+            d = discs.build("DFS", ents, scratch, tag, nsectors=400, salt=9, title=b"EXTRACT")
+        evs = []
+        for dest in (["../d", "../d/"] if not quick else ["../d/" if ci % 2 else "../d"]):
+            e = run_in_sandbox(dfs, d.path, ["--drive", d.drive, "extract-files", "{DEST}"], scratch, tag + str(len(dest)), True, dest)
+            created = {"/".join(c) for c in e["created"]}
+            made, accounted = [], set()
+            for fi, ei, cls, land in plan:
+                if land and land in created:
+                    made.append(dict(f=fi, i=ei))
+                if land:
+                    accounted |= {land, land + ".inf"}
+            e.update(e="extract", cat=cat, made=made, stray=len(created - accounted), variant=variant, disc=ci,
+                     names=[[dirc_nm["dir"], list(dirc_nm["name"])] for dirc_nm in ents])
+            evs.append(e)
+        return evs
+    res = [x for x in common.pmap(do, jobs) if x]
+    events = [e for evs in res for e in evs]
+    if not events:
+        raise common.MachineryError("no extract runs")
+    for e in events:
+        chk.case(("extract-run", json.dumps(e["cat"]), e["variant"], e["cmd"][-1]), nontrivial=any(x != "in" for fr in e["cat"] for x in fr))
+    chk.sample(events[len(events) // 2])
+    trace = os.path.join(scratch, "xtrace.ndjson")
+    with open(trace, "w") as fh:
+        for e in events:
+            fh.write(json.dumps(common.no_nulls(e)) + "\n")
+    ok, tr = common.validate_trace("TraceExtract", "TraceExtract.cfg", trace, timeout=1200)
+    chk.add_tlc("TraceExtract", tr)
+    chk.traces += len(events)
+    if not ok or not tr.verdicts:
+        raise common.MachineryError("TraceExtract did not consume the whole trace:\n" + tr.output[-3000:])
+    v = tr.verdicts[-1]
+    for ln in sorted(v["bad"]):
+        e = events[ln - 1]
+        where = sorted({"frag%d" % m["f"] for m in e["made"] if e["cat"][m["f"] - 1][m["i"] - 1] == "out"}) or ["stray"]
+        chk.violation("extract-files:escape:%s:%s" % (e["variant"], "+".join(where)),
+                      "extract-files over a %s catalogue %r: created %r (outside the destination or unaccounted), rc=%s err=%r"
+                      % (e["variant"], e["cat"], e["created"][:6], e["rc"], e["err"][:100]), dict(event=e))
+    chk.extra["extract_runs"] = len(events)
+    chk.extra["extract_runs_success_but_incomplete"] = len(v.get("incomplete", []))
 
 
 def replay(chk, path):
